@@ -26,6 +26,9 @@ def alphabet():
         # a loss element whose value is exactly zero (it still owns a loss mode of U_full); a plain group at mode 0 (after a heralded group it spans that
         # group's ancilla mode)
         ("loss0", 2), ("group", 0),
+        # a unitary block that is diagonal with unit-modulus entries other than 1 (a phase gate such as Z, S, T padded to two modes): it acts on its modes like
+        # any other block
+        ("umdiag", 1),
     ]
 
 
@@ -50,6 +53,9 @@ def build(env, prog, params=None, observe=False):
             c.barrier()
         elif k == "um":
             c.add(lw.Unitary(block_unitary(env, comp[2], idx)), comp[1])
+        elif k == "umdiag":
+            import numpy as _np
+            c.add(lw.Unitary(_np.array([[env.const(-1), env.const(0)], [env.const(0), env.I()]], dtype=object) if env.mode == "exact" else _np.array([[-1, 0], [0, 1j]], dtype=complex)), comp[1])
         elif k == "group":
             g = lw.Circuit(2)
             g.bs(1, 0, reflectivity=(params[idx] if params else env.const(F(idx + 1, 6))), convention="H")
@@ -144,7 +150,7 @@ def programs(tier):
         progs.append(tuple(rnd.choice(swaps) if rnd.random() < 0.55 else rnd.choice(A) for _ in range(L)))
     # swaps on both sides of every kind of group, with and without an earlier heralded group whose ancilla mode the later group spans: the group must
     # block every mode of its (ancilla-widened) range
-    groups = [a for a in A if a[0] in ("group", "hgroup")]
+    groups = [a for a in A if a[0] in ("group", "hgroup", "umdiag", "um")]
     for g in groups:
         for s1 in swaps:
             for s2 in (swaps if tier == "thorough" else swaps[::2] + [s1]):
